@@ -652,6 +652,69 @@ pub fn worker(case: &Value) -> Value {
                 }
             }
         }
+        "late2" => {
+            // the SAME bare name before and after a DEFtype statement: used 1..3 times before it, then it denotes
+            // the variable of the new default type; a second statement (DEFSNG) switches it back
+            for (q, second_val, second_out) in [(Q::Int, "2.25", " 2 "), (Q::Lng, "70000.25", " 70000 "), (Q::Dbl, "2.25", " 2.25 "), (Q::Str, "\"s\"", "s"), (Q::Sng, "2.25", " 2.25 ")] {
+                for uses in 1..=3usize {
+                    for in_sub in [false] {
+                        let mut body = String::from("Nam = 1.75\n");
+                        let mut out = String::new();
+                        for _ in 1..uses {
+                            body.push_str("PRINT Nam\n");
+                            out.push_str(" 1.75 \r\n");
+                        }
+                        body.push_str(&format!("{} N\nNam = {}\nPRINT Nam\nPRINT Nam!\n", q.def_kw(), second_val));
+                        let same = matches!(q, Q::Sng);
+                        out.push_str(&format!("{}\r\n{}\r\n", second_out, if same { " 2.25 " } else { " 1.75 " }));
+                        body.push_str("DEFSNG N\nPRINT Nam\nNam = 3.5\nPRINT Nam!\n");
+                        out.push_str(&format!("{}\r\n 3.5 \r\n", if same { " 2.25 " } else { " 1.75 " }));
+                        let text = if in_sub { format!("DECLARE SUB W ()\nW\nSUB W\n{}END SUB\n", body) } else { body };
+                        let e = Expect { text, want: Ok(out), label: format!("the same bare name {} time(s) before a {:?} statement and after it{}", uses, q, if in_sub { ", inside a SUB" } else { "" }), sigkey: "the same name before and after a DEFtype statement".into() };
+                        n += 1;
+                        judge(&e, g, &mut hist, &mut bads, json!({"g": g, "quick": quick, "lo": 0, "hi": 1}));
+                    }
+                }
+            }
+        }
+        "longnames" => {
+            // identifiers of 1 .. 40 characters (the longest legal name) spelled in another letter case at one position
+            // (first, middle, 31st .. 34th, last) or everywhere: the same variable / constant / subprogram / label
+            let base = "VerylongIdentifierNameWith40Characters12";
+            for len in [1usize, 2, 8, 16, 31, 32, 33, 34, 39, 40] {
+                let stem: String = base.chars().take(len - 1).collect();
+                let flip = |s: &str, at: &[usize]| -> String {
+                    s.chars().enumerate().map(|(i, c)| if at.contains(&i) { if c.is_ascii_uppercase() { c.to_ascii_lowercase() } else { c.to_ascii_uppercase() } } else { c }).collect()
+                };
+                // the respellings: all upper, all lower, one position flipped
+                let mut respell: Vec<(String, Box<dyn Fn(&str) -> String>)> = vec![
+                    ("upper case".into(), Box::new(|s: &str| s.to_ascii_uppercase())),
+                    ("lower case".into(), Box::new(|s: &str| s.to_ascii_lowercase())),
+                ];
+                let mut seen = vec![];
+                for at in [0usize, len / 2, 30, 31, 32, 33, len - 1] {
+                    if at < len && !seen.contains(&at) && (at == len - 1 || stem.chars().nth(at).map(|c| c.is_ascii_alphabetic()).unwrap_or(false)) {
+                        seen.push(at);
+                        respell.push((format!("position {} flipped", at + 1), Box::new(move |s: &str| flip(s, &[at]))));
+                    }
+                }
+                for (how, f) in &respell {
+                    let nm = |tag: char| format!("{}{}", stem, tag);
+                    let (v, sb, fu, co, gl, la) = (nm('V'), nm('S'), nm('F'), nm('C'), nm('G'), nm('L'));
+                    let text = format!(
+                        "DECLARE SUB {sb} (X%)\nDECLARE FUNCTION {fu}% (X%)\nCONST {co} = 7\nDIM SHARED {gl} AS INTEGER\n{v} = 21.5\nPRINT {v2}\n{v2}$ = \"s\"\nPRINT {v}$\n{gl2} = 5\n{sb2} 1\nPRINT {fu2}%(2); {co2}\nGOTO {la2}\nPRINT \"skipped\"\n{la}:\nPRINT \"end\"\nSUB {sb} (X%)\nPRINT {gl2} + X%\nEND SUB\nFUNCTION {fu}% (X%)\n{fu2}% = X% * 2\nEND FUNCTION\n",
+                        sb = sb, fu = fu, co = co, gl = gl, v = v, la = la,
+                        v2 = f(&v), gl2 = f(&gl), sb2 = f(&sb), fu2 = f(&fu), co2 = f(&co), la2 = f(&la)
+                    );
+                    let e = Expect { text, want: Ok(" 21.5 \r\ns\r\n 6 \r\n 4  7 \r\nend\r\n".to_string()), label: format!("names of {} characters respelled: {}", len, how), sigkey: "names differing only in letter case".into() };
+                    n += 1;
+                    if sample.is_null() {
+                        sample = json!({"group": g, "label": e.label, "text": e.text});
+                    }
+                    judge(&e, g, &mut hist, &mut bads, json!({"g": g, "quick": quick, "lo": 0, "hi": 1}));
+                }
+            }
+        }
         "arrays" => {
             let all = array_programs();
             for idx in lo..hi.min(all.len()) {
@@ -731,6 +794,8 @@ pub fn drive(tier: &str) -> i32 {
         ("sub", 7 * 216),
         ("fn", 5 * 216),
         ("late", 1),
+        ("late2", 1),
+        ("longnames", 1),
         ("arrays", array_programs().len()),
     ];
     for (g, t) in totals {
@@ -751,7 +816,7 @@ pub fn drive(tier: &str) -> i32 {
         run.capped = true;
     }
     let mut ev = Evidence::new("exploration");
-    ev.set("rule", "deftype: every DEFINT / DEFLNG / DEFSNG / DEFDBL / DEFSTR statement over every single letter and every range with ends in {A, B, M, Y, Z} (thorough: all 325 ranges), lower / mixed case of keyword and range ends, two ranges in one statement and a later statement overriding an earlier one; each program assigns the five suffixed variables of a name starting with each of the 26 letters and prints the bare name (in another letter case): the model's 26-entry default table predicts which one it is. late: a DEFtype statement after the first use of a bare name (the name keeps its earlier default, names first used afterwards have the new one, also inside a SUB that follows). arrays: a scalar and an array of the same base name and different types (each of the 6 spellings for both, under every default type, the array DIMmed / REDIMmed / REDIMmed twice, either one first) are different variables. global: default type of the first letter (none or one of 5 DEFtype statements) x declaration (none, DIM name AS each of 5 types, DIM with each of the 6 spellings) x every sequence of 1..2 (thorough 3) assignments through the 6 spellings (bare and five suffixes) in rotating letter case: the model predicts the first spelling the checker must reject (after DIM AS type only the bare name and the matching suffix are legal) or, if none, the value each spelling prints. sub: an unshared global against a local of the same spelling, against a local declared AS each type and against a parameter declared AS each type; DIM SHARED with each spelling while another spelling is used first in the SUB; DIM SHARED AS type against each spelling; a global CONST read and assigned in a SUB; a parameter in each spelling with another spelling used first — each under every default type. fn: a FUNCTION declared with each spelling and called with each spelling (the same function iff the types agree), its result assigned twice through each spelling of the same type (the last value counts) and through every other spelling (not decided by the rules: any BASIC-level outcome, no internal failure), a parameter in each spelling given a variable of each type by reference, a parameter declared AS each type used through each spelling inside — each under every default type.");
+    ev.set("rule", "deftype: every DEFINT / DEFLNG / DEFSNG / DEFDBL / DEFSTR statement over every single letter and every range with ends in {A, B, M, Y, Z} (thorough: all 325 ranges), lower / mixed case of keyword and range ends, two ranges in one statement and a later statement overriding an earlier one; each program assigns the five suffixed variables of a name starting with each of the 26 letters and prints the bare name (in another letter case): the model's 26-entry default table predicts which one it is. late: a DEFtype statement after the first use of a bare name (the name keeps its earlier default, names first used afterwards have the new one, also inside a SUB that follows). late2: the same bare name used 1..3 times before a DEFtype statement and again after it (it then denotes the variable of the new default type; a following DEFSNG switches back). longnames: identifiers of 1 .. 40 characters (variable, string variable, DIM SHARED variable, CONST, SUB, FUNCTION, label) spelled in another letter case at the first, middle, 31st .. 34th or last position or everywhere. arrays: a scalar and an array of the same base name and different types (each of the 6 spellings for both, under every default type, the array DIMmed / REDIMmed / REDIMmed twice, either one first) are different variables. global: default type of the first letter (none or one of 5 DEFtype statements) x declaration (none, DIM name AS each of 5 types, DIM with each of the 6 spellings) x every sequence of 1..2 (thorough 3) assignments through the 6 spellings (bare and five suffixes) in rotating letter case: the model predicts the first spelling the checker must reject (after DIM AS type only the bare name and the matching suffix are legal) or, if none, the value each spelling prints. sub: an unshared global against a local of the same spelling, against a local declared AS each type and against a parameter declared AS each type; DIM SHARED with each spelling while another spelling is used first in the SUB; DIM SHARED AS type against each spelling; a global CONST read and assigned in a SUB; a parameter in each spelling with another spelling used first — each under every default type. fn: a FUNCTION declared with each spelling and called with each spelling (the same function iff the types agree), its result assigned twice through each spelling of the same type (the last value counts) and through every other spelling (not decided by the rules: any BASIC-level outcome, no internal failure), a parameter in each spelling given a variable of each type by reference, a parameter declared AS each type used through each spelling inside — each under every default type.");
     ev.set("exhaustive", !run.capped);
     ev.set("plan", json!(plan));
     ev.set("distinct_nontrivial", run.nontrivial);
